@@ -21,7 +21,7 @@ def run(chk):
     n = vf.NCPU
     L = chk.pick(2, 3)
     exh = exh_total(L)
-    rnd = chk.pick(150000, 1000000)          # random (table, argv, settings) cases: half well-formed, half arbitrary
+    rnd = chk.pick(150000, 20000000)          # random (table, argv, settings) cases: half well-formed, half arbitrary
     per = (exh + rnd + n - 1) // n
     env = {'ASAN_OPTIONS': vf.ASAN_ENV['ASAN_OPTIONS'] + ':quarantine_size_mb=32'}
     chk.run('asan', exe, per, env=env, timeout=chk.pick(300, 1800))
